@@ -2,7 +2,7 @@
    qiskit_addon_cutting.find_cuts, STRICT on metadata['minimum_reached'] and metadata['sampling_overhead'].
    One case = one find_cuts request run under several seeds (each with its recorded random tape). *)
 From Coq Require Import QArith Qabs.
-From CKT Require Import Model.CutFinder.
+From CKT Require Import Model.CutFinder Model.CutFinderTable.
 Close Scope Q_scope.
 
 (* a recorded numpy double in [0,1): k / 2^53 *)
@@ -55,7 +55,9 @@ Definition cmp_run (k : case8) (r : run8) : option (list bool) :=
 Definition chk_run (k : case8) (r : run8) : bool :=
   match cmp_run k r with Some l => forallb (fun b => b) l | None => false end.
 
-Definition chk_c08 (k : case8) : bool := (if k_check_model k then forallb (chk_run k) (k_runs k) else true) && k_oracle k.
+(* gtab_ge1: the hypothesis "every kappa of the gate table is >= 1" of the C08 theorems, evaluated on every case *)
+Definition chk_c08 (k : case8) : bool :=
+  (if k_check_model k then forallb (chk_run k) (k_runs k) else true) && k_oracle k && gtab_ge1 (k_gtab k).
 
 (* diagnosis helper: what the model computes for every run *)
 Definition model_runs (k : case8) : list (option (Q * bool)) :=
